@@ -48,22 +48,26 @@ theorem Ctx.observe_eq (h : Ctx cfg c m) : observeMsg m = expected cfg c := by
   · exact h.allCommunities
 
 theorem code14_reach {a : AttrC} (hk : a.kindOk cfg) (hc : a.code = 14) :
-    ∃ fl f nh nlri, a = .reach fl f nh nlri := by
+    (∃ fl f nh rsv nlri, a = .reach fl f nh rsv nlri) ∨ (∃ fl k nh rsv body, a = .reachU fl k nh rsv body) := by
   cases a with
   | typed fl t => cases t <;> simp [AttrC.code, TypedAttr.code] at hc
   | path fl as4 ss => cases as4 <;> simp [AttrC.code] at hc
   | raw fl tc v => exact absurd hc hk.2.1
-  | reach fl f nh nlri => exact ⟨fl, f, nh, nlri, rfl⟩
+  | reach fl f nh rsv nlri => exact .inl ⟨fl, f, nh, rsv, nlri, rfl⟩
   | unreach fl f nlri => simp [AttrC.code] at hc
+  | reachU fl k nh rsv body => exact .inr ⟨fl, k, nh, rsv, body, rfl⟩
+  | unreachU fl k body => simp [AttrC.code] at hc
 
 theorem code15_unreach {a : AttrC} (hk : a.kindOk cfg) (hc : a.code = 15) :
-    ∃ fl f nlri, a = .unreach fl f nlri := by
+    (∃ fl f nlri, a = .unreach fl f nlri) ∨ (∃ fl k body, a = .unreachU fl k body) := by
   cases a with
   | typed fl t => cases t <;> simp [AttrC.code, TypedAttr.code] at hc
   | path fl as4 ss => cases as4 <;> simp [AttrC.code] at hc
   | raw fl tc v => exact absurd hc hk.2.2
-  | reach fl f nh nlri => simp [AttrC.code] at hc
-  | unreach fl f nlri => exact ⟨fl, f, nlri, rfl⟩
+  | reach fl f nh rsv nlri => simp [AttrC.code] at hc
+  | unreach fl f nlri => exact .inl ⟨fl, f, nlri, rfl⟩
+  | reachU fl k nh rsv body => simp [AttrC.code] at hc
+  | unreachU fl k body => exact .inr ⟨fl, k, body, rfl⟩
 
 /-- the MP attributes of a well-formed content have their fixed octets -/
 theorem mpOk_raws (cfg : Cfg) (c : TContent) (hk : ∀ a ∈ c.attrs, a.kindOk cfg) : MpOk (c.raws cfg) := by
@@ -74,17 +78,22 @@ theorem mpOk_raws (cfg : Cfg) (c : TContent) (hk : ∀ a ∈ c.attrs, a.kindOk c
   simp only [AttrC.rawOf, a.code_toNat]
   constructor
   · intro hc
-    obtain ⟨fl, f, nh, nlri, rfl⟩ := code14_reach hka hc
-    obtain ⟨b, hb, _⟩ := nlris_reported f (cfg.rx (famCode f)) nlri hka.1
-    have hv : (AttrC.reach fl f nh nlri).valueD cfg = reachValue f nh b := by simp [AttrC.valueD, AttrC.value, hb]
-    rw [hv]
-    refine ⟨by simp [reachValue]; omega, by simp [afiSafi_reach]⟩
+    rcases code14_reach hka hc with ⟨fl, f, nh, rsv, nlri, rfl⟩ | ⟨fl, k, nh, rsv, body, rfl⟩
+    · obtain ⟨b, hb, _⟩ := nlris_reported f (cfg.rx (famCode f)) nlri hka.1
+      have hv : (AttrC.reach fl f nh rsv nlri).valueD cfg = mpReachValue (famCode f) nh rsv b := by
+        simp [AttrC.valueD, AttrC.value, hb]
+      rw [hv]
+      refine ⟨by simp [mpReachValue]; omega, by simp [Ctx.afiSafi_reachR]⟩
+    · rw [Ctx.reachU_value]
+      refine ⟨by simp [mpReachValue]; omega, by simp [afiSafi_mpReach k hka.2.1 hka.2.2.1]⟩
   · intro hc
-    obtain ⟨fl, f, nlri, rfl⟩ := code15_unreach hka hc
-    obtain ⟨b, hb, _⟩ := nlris_reported f (cfg.rx (famCode f)) nlri hka
-    have hv : (AttrC.unreach fl f nlri).valueD cfg = unreachValue f b := by simp [AttrC.valueD, AttrC.value, hb]
-    rw [hv]
-    simp [afiSafi_unreach]
+    rcases code15_unreach hka hc with ⟨fl, f, nlri, rfl⟩ | ⟨fl, k, body, rfl⟩
+    · obtain ⟨b, hb, _⟩ := nlris_reported f (cfg.rx (famCode f)) nlri hka
+      have hv : (AttrC.unreach fl f nlri).valueD cfg = unreachValue f b := by simp [AttrC.valueD, AttrC.value, hb]
+      rw [hv]
+      simp [afiSafi_unreach]
+    · rw [Ctx.unreachU_value]
+      simp [afiSafi_mpUnreach k hka.2.1 hka.2.2]
 
 /-- the encoding of a well-formed typed content exists and – when it fits the
 length field, and whatever follows it – is accepted, with the facts `Ctx` lists -/
